@@ -26,6 +26,7 @@ type zzSyncEnv struct {
 	rangeReqs    [][2]uint64
 	netTop       uint64 // highest verified head handed out by the Head getter
 	topAccepted  uint64 // highest canonical height accepted so far (stored initially, by gossip or by Head())
+	forgedHeads  int    // forged heads offered by the Head getter so far
 }
 
 // zzNewSyncEnv starts a real Syncer over the specification store holding chain[:stored].
@@ -139,6 +140,14 @@ func zzNewSyncEnv(ctx context.Context, K, stored, getterErrs int, gates bool) *z
 		h := env.chain[zz.Choice("nethead", K)]
 		if p.TrustedHead == nil {
 			return h, nil
+		}
+		if zz.Param("FORGEDHEAD", 0) == 1 && env.forgedHeads == 0 && zz.Bool("nethead.forged") {
+			// dishonest trusted peers: a forged head two above the trusted one. Non-adjacent verification
+			// against the trusted head either refuses it (the exchange then reports no head) or fails softly,
+			// in which case the contract hands it out together with the soft error and the Syncer must bifurcate
+			env.forgedHeads++
+			h = &zh.Hdr{Chain: "c", H: p.TrustedHead.H + 2, T: time.Now().Add(-30 * time.Minute), ID: zzForeign + 50 + env.forgedHeads, Prev: zzForeign + 800 + env.forgedHeads}
+			zz.Reach("forged-head-offered")
 		}
 		verr := header.Verify(p.TrustedHead, h)
 		if verr == nil {
@@ -276,7 +285,7 @@ func ZzC03() {
 	env := zzNewSyncEnv(ctx, K, stored, zz.Param("ERRS", 1), true)
 	for n := 0; n < G; n++ {
 		zz.Gate("main:deliver")
-		if zz.Param("STALE", 0) == 1 && zz.Bool("op.head") {
+		if zz.Param("STALE", 0) == 1 && (zz.Param("HEADONLY", 0) == 1 || zz.Bool("op.head")) {
 			// a Head() call running concurrently with the deliveries and the sync loop
 			go func() {
 				h, err := env.s.Head(ctx)
